@@ -4,7 +4,7 @@ use std::collections::BTreeMap;
 use std::fmt::Debug;
 use std::str;
 
-use crate::Result;
+use crate::{Error, Result};
 use serde::{Deserialize, Serialize};
 
 pub mod byproducts;
@@ -47,6 +47,13 @@ impl Link {
     }
 
     pub fn try_into(self) -> Result<LinkMetadata> {
+        if self.typ != "link" {
+            return Err(Error::Encoding(format!(
+                "Unexpected _type {:?} for a link",
+                self.typ
+            )));
+        }
+
         LinkMetadata::new(
             self.name,
             self.materials,
